@@ -345,7 +345,8 @@ class ProviderDispatcher(BaseProvider):
             prop_inst = ModifiedInstance.properties[pn]
             prop_cls = creation_class.properties[pn]
 
-            if prop_cls.qualifiers.get('key', False) and \
+            if 'key' in prop_cls.qualifiers and \
+                    prop_cls.qualifiers['key'].value and \
                     prop_inst.value != instance[pn]:
                 raise CIMError(
                     CIM_ERR_INVALID_PARAMETER,
@@ -370,7 +371,8 @@ class ProviderDispatcher(BaseProvider):
                     # value, it is None. A CIMProperty object is used because
                     # the CIM type cannot be inferred from a value of None.
                     cl_prop = creation_class.properties[pn]
-                    if 'key' in cl_prop.qualifiers:
+                    if 'key' in cl_prop.qualifiers and \
+                            cl_prop.qualifiers['key'].value:
                         # A key property cannot be modified, so it keeps
                         # its value and does not get the class default
                         continue
